@@ -240,22 +240,33 @@ theorem esc_cmd (fuel : Nat) (ih : Esc fuel) : ∀ s c, Within (loops s.stack) (
   | unknown => simp only [execCmd]; exact within_finishSimple _ _ _ trivial
   | absent w r a => simp only [execCmd]; exact within_finishSimple _ _ _ trivial
   | tick c k => simp only [execCmd]; split <;> exact within_finishSimple _ _ _ trivial
-  | call name =>
+  | setParams n => simp only [execCmd]; exact within_finishSimple _ _ _ trivial
+  | freeze name => simp only [execCmd]; split <;> exact within_finishSimple _ _ _ trivial
+  | forRo values => simp only [execCmd, St.expansionError]; split <;> (try split) <;> trivial
+  | forPos body =>
+    simp only [execCmd]
+    split
+    · trivial
+    · have h1 := ih.for_ (s.push .loop) s.params body s.stack rfl
+      generalize execFor fuel (s.push .loop) s.params body = x at *
+      obtain ⟨s1, r⟩ := x
+      exact h1
+  | call name nargs =>
     simp only [execCmd]
     split
     · exact within_finishSimple _ _ _ trivial
     · exact within_finishSimple _ _ _ trivial
     · exact within_finishSimple _ _ _ trivial
     · rename_i body _
-      have h1 := ih.cmd s body
-      generalize execCmd fuel s body = x at *
+      have h1 := ih.cmd { s with params := nargs } body
+      generalize execCmd fuel { s with params := nargs } body = x at *
       obtain ⟨s1, r⟩ := x
       simp only at h1
       split
       · exact within_finishSimple _ _ _ trivial
       · exact within_finishSimple _ _ _ h1
     · exact within_finishSimple _ _ _ trivial
-  | fundef name body => simp only [execCmd]; exact within_finishSimple _ _ _ trivial
+  | fundef name body => simp only [execCmd]; split <;> exact within_finishSimple _ _ _ trivial
   | expErr => simp only [execCmd, St.expansionError]; split <;> trivial
   | assignErr => simp only [execCmd, St.expansionError]; split <;> trivial
   | redirErr k => simp only [execCmd]; cases k <;> first | trivial | exact within_applyErrexit _ _
